@@ -95,7 +95,7 @@ int TextFormatter::apr(File& f, const char *fmt, ...)
   char buf[32], *s;
   double x;
   int rc;
-  ssize_t i, j;
+  long long i, j;     // wide enough to negate INT_MIN and to hold a size_t
   va_list ap;
 
   rc = 0;
